@@ -1,6 +1,6 @@
 //! C08 — Prometheus output is well-formed exposition text for any input strings (E3).
 use metrics::{Key, KeyName, Label, Level, Metadata, Recorder, SharedString, Unit};
-use metrics_exporter_prometheus::PrometheusBuilder;
+use metrics_exporter_prometheus::{Matcher, PrometheusBuilder};
 use vcore::driver::{self, CheckDef, Ctx, PartResult, PartSpec};
 use vcore::json;
 use vcore::promtext;
@@ -34,7 +34,12 @@ enum Kind {
     Counter,
     Gauge,
     Summary,
+    /// histogram through global buckets
     Histogram,
+    /// histogram through a per-metric bucket override: Full / Prefix / Suffix matcher spelled with the metric's own name
+    HistFull,
+    HistPrefix,
+    HistSuffix,
 }
 
 #[derive(Clone, Debug)]
@@ -53,15 +58,19 @@ fn expected_samples(kind: Kind) -> usize {
     match kind {
         Kind::Counter | Kind::Gauge => 1,
         Kind::Summary => 7 + 2,   // default quantiles 0, 0.5, 0.9, 0.95, 0.99, 0.999, 1 + sum + count
-        Kind::Histogram => 2 + 1 + 2, // buckets 1, 5 + +Inf + sum + count
+        _ => 2 + 1 + 2, // buckets 1, 5 + +Inf + sum + count
     }
 }
 
 /// Renders one case on a fresh recorder and judges the text. Err((signature, message)).
 fn judge(c: &Case) -> Result<String, (String, String)> {
     let mut b = PrometheusBuilder::new().set_enable_unit_suffix(c.suffix);
-    if c.kind == Kind::Histogram {
-        b = b.set_buckets(&[1.0, 5.0]).unwrap();
+    match c.kind {
+        Kind::Histogram => b = b.set_buckets(&[1.0, 5.0]).unwrap(),
+        Kind::HistFull => b = b.set_buckets_for_metric(Matcher::Full(c.name.clone()), &[1.0, 5.0]).unwrap(),
+        Kind::HistPrefix => b = b.set_buckets_for_metric(Matcher::Prefix(c.name.clone()), &[1.0, 5.0]).unwrap(),
+        Kind::HistSuffix => b = b.set_buckets_for_metric(Matcher::Suffix(c.name.clone()), &[1.0, 5.0]).unwrap(),
+        _ => {}
     }
     let rec = b.build_recorder();
     let mut labels = vec![Label::new(c.label_key.clone(), c.label_val.clone())];
@@ -103,7 +112,7 @@ fn judge(c: &Case) -> Result<String, (String, String)> {
         Kind::Counter => "counter",
         Kind::Gauge => "gauge",
         Kind::Summary => "summary",
-        Kind::Histogram => "histogram",
+        _ => "histogram",
     };
     if f.ty != want_ty {
         return Err(("family-type-wrong".into(), format!("type {} expected {} ;; text {:?}", f.ty, want_ty, text)));
@@ -189,7 +198,7 @@ fn sweep(ctx: &Ctx, res: &mut PartResult, which: &str) {
             // units x suffix x kinds, with benign and with awkward names
             for u in UNITS {
                 for sfx in [false, true] {
-                    for k in KINDS {
+                    for k in [Kind::Counter, Kind::Gauge, Kind::Summary, Kind::Histogram, Kind::HistFull, Kind::HistPrefix, Kind::HistSuffix] {
                         for name in ["m", "a:b", "9x", "é", "m_bucket"] {
                             for d in [true, false] {
                                 let mut c = Case { name: name.into(), unit: u, suffix: sfx, ..base(k) };
